@@ -39,6 +39,9 @@ CLAIMED = {
  "C18": ("mod/ref (written-field) sets through owned sub-measurements vs Reset's re-initialised set, constructor-value agreement, all-paths flag-polarity check over go/ssa",
          "Static, structural clauses only: Reset re-initialises every field Add/Update can write (followed through owned sub-measurements) to the constructor's initial value; no ImmutableSampleWindow method stores through its receiver and the folds return new values; Add's flag is true or an old != new comparison whenever the reported field can change (never old == new); SingleMeasurement.Add stores exactly its argument. The numeric clauses of the property (means, hull bounds, variance sign, percentile accuracy) are not applicable to this technique.",
          "5/C18"),
+ "C15": ("who-may-write analysis of the baseline measurement + branch-fact minimum discipline + all-paths probe bookkeeping over go/ssa",
+         "Static, structural clauses: the no-load baseline of Vegas and Gradient is written only by Add(float64(this sample's rtt)), Reset() or replacement with a fresh measurement; MinimumMeasurement.Add stores exactly the sample and only when unset or lower; every OnSample path leaves the baseline reset, fed this rtt, or established <= rtt; the probe counter advances exactly once per sample when probing is enabled and the probe branch re-arms it from a fresh random draw and resets the baseline on the same path. The numeric recurrence bounds of the resets are not applicable.",
+         "5/C15"),
 }
 
 PENDING_REASON = "check not built yet in this session; see DESIGN.md section 5 for the planned static obligations"
